@@ -22,6 +22,19 @@ from lib import common as C, h1
 DRIVER = "h1_c03_driver.c"
 
 
+def run_model(name, lines):
+    """C.run_model, tolerant of another builder relinking uvmodel at this very moment"""
+    import time
+    last = None
+    for _ in range(40):
+        try:
+            return C.run_model(name, lines)
+        except (FileNotFoundError, PermissionError, OSError, RuntimeError) as e:
+            last = e
+            time.sleep(3)
+    raise last
+
+
 # --------------------------------------------------------------------------------------------------
 # H1 tie: schedule generator
 # --------------------------------------------------------------------------------------------------
@@ -217,6 +230,10 @@ def norm_state(line):
     """After mtd_dtor the producer has unmapped its buffers (clear_shmem_buffer): the driver cannot show
     them any more, the model keeps them.  Compare everything else."""
     line = C.norm(line)
+    if " STEPS " in line:
+        m = re.search(r"views=(\S*)", line)
+        bad = " agree=0" in line or (" exit=" in line and " exit=0 " not in line)
+        return "ok STEPS %sviews=%s" % ("BROKEN " if bad else "", m.group(1) if m else "?")
     line = DONE_BUFS.sub(r"\1 bufs=[*]", line)
     return line
 
@@ -303,11 +320,28 @@ def monitor_stream(items, emitted, complete):
     return None
 
 
+def ensure_version_h(ctx):
+    ctx.snapshot()
+    # version.h is generated by the Makefile; /repo may have been cleaned
+    if not os.path.exists(os.path.join(ctx.src, "version.h")):
+        C.sh(["make", "-C", ctx.src, "-s", os.path.join(ctx.src, "version.h")])
+
+
+_MAKE_POOL = ThreadPoolExecutor(1)
+
+
+def start_make(ctx):
+    """build uftrace + libmcount of the snapshot in the background (needed only by the e2e part)"""
+    ensure_version_h(ctx)
+    return _MAKE_POOL.submit(ctx.make)
+
+
 def build_h1(ctx, extra_cflags=(), out="h1c03"):
+    ensure_version_h(ctx)
     return h1.build(ctx, "normal", extra_cflags=extra_cflags, driver=DRIVER, out=out)
 
 
-def run_h1_cases(ctx, exe, cases, model_name="C03"):
+def run_h1_cases(ctx, exe, cases, model_name="C03", extra_env=None):
     """cases: list of Gen.  Returns list of dict(case, impl, model, first_diff, monitor)."""
     # pass 1: the model alone on the generous schedule; ops that are not enabled (no state change) are
     # pruned from the schedule (a few are kept), so that the harness runs only what matters
@@ -319,7 +353,7 @@ def run_h1_cases(ctx, exe, cases, model_name="C03"):
             mlines += ms
             idx.append(len(mlines) - 1)
         spans.append(idx)
-    mout = C.run_model(model_name, mlines)
+    mout = run_model(model_name, mlines)
     for g, idx in zip(cases, spans):
         keep = []
         nd = 0
@@ -334,7 +368,7 @@ def run_h1_cases(ctx, exe, cases, model_name="C03"):
 
     def one(ic):
         i, g = ic
-        r = run_harness(ctx, exe, i, g.maxsize + 16, [o[0] for o in g.ops])
+        r = run_harness(ctx, exe, i, g.maxsize + 16, [o[0] for o in g.ops], extra_env=extra_env)
         cleanup_run(r)
         return r
     with ThreadPoolExecutor(8) as ex:
@@ -353,7 +387,7 @@ def run_h1_cases(ctx, exe, cases, model_name="C03"):
                     d["first_diff"] = (j, norm_state(a), norm_state(b))
                     break
         # monitor on the implementation's final state
-        if impl:
+        if impl and " STEPS " not in impl[-1]:
             st = parse_state(norm_state(impl[-1]))
             drained = not st["PIPE"] and not st["WL"] and all(w.startswith("-") for w in st["WR"])
             for k, f in st["files"].items():
@@ -614,6 +648,7 @@ def run(ctx):
         C.violation(ctx, "proof", {"kind": "proof-obligation-broken", "problems": problems}, True)
         return C.finish(ctx)
     ctx.snapshot()
+    make_job = start_make(ctx)
 
     # ---- (a) H1: real producer vs model, step by step ------------------------------------------
     exe, log = build_h1(ctx)
@@ -671,7 +706,7 @@ def run(ctx):
             }, no_failing_input=not d["monitor"])
 
     # ---- (b) e2e: real recorder -------------------------------------------------------------------
-    okm, mlog = ctx.make()
+    okm, mlog = make_job.result()
     e2e = {"runs": 0, "records": 0, "threads": 0, "failures": 0}
     if not okm:
         C.violation(ctx, "make", {"kind": "snapshot-build-failed", "log": mlog[-3000:]}, True)
@@ -765,7 +800,7 @@ def replay(ctx, path):
         if exe:
             rr = run_harness(ctx, exe, 0, r["config"]["bufsize"], r["harness_script"])
             cleanup_run(rr)
-            mout = C.run_model("C03", r["model_script"])
+            mout = run_model("C03", r["model_script"])
             impl = [l for l in rr["lines"] if l.startswith(("ok", "disabled", "bad-op"))]
             print("IMPL :", norm_state(impl[-1]) if impl else rr["stderr"][-300:])
             print("MODEL:", norm_state(mout[-1]) if mout else None)
